@@ -421,6 +421,10 @@ class NDNApp:
         name = Name.normalize(name)
 
         def decorator(func: Route):
+            # Refuse a second route for the same prefix here: noticed only when the routes are registered at
+            # connection time, it would end that start-up and cost the routes behind it their registration
+            if any(declared == name for declared, *_ in self._autoreg_routes):
+                raise ValueError(f'Duplicated registration: {Name.to_str(name)}')
             self._autoreg_routes.append((name, func, validator, need_raw_packet, need_sig_ptrs))
             if self.face.running:
                 aio.create_task(self.register(name, func, validator, need_raw_packet, need_sig_ptrs))
